@@ -81,7 +81,70 @@ fn observe_fields(fs: &[Field], access: &str) -> String {
         .join(", ")
 }
 
+fn magic_ty(s: &Spec, m: &Magic) -> (String, String) {
+    // (attribute prefix, type)
+    let recv = |r: Option<usize>, unit: &str, syn_ty: &str| -> String {
+        match r {
+            None => unit.to_string(),
+            Some(usize::MAX) => syn_ty.to_string(),
+            Some(id) => format!("R{}", id),
+        }
+    };
+    let syn = "::darling::export::syn";
+    match m.name.as_str() {
+        "ident" => (String::new(), if s.tr == Trait::FromField { format!("Option<{}::Ident>", syn) } else { format!("{}::Ident", syn) }),
+        "vis" => (String::new(), format!("{}::Visibility", syn)),
+        "ty" => (String::new(), format!("{}::Type", syn)),
+        "bounds" => (String::new(), format!("Vec<{}::TypeParamBound>", syn)),
+        "default" => (String::new(), format!("Option<{}::Type>", syn)),
+        "discriminant" => (String::new(), format!("Option<{}::Expr>", syn)),
+        "generics" => {
+            let base = format!("{}::Generics", syn);
+            (
+                String::new(),
+                match m.wrap.as_str() {
+                    "ast" => format!("::darling::ast::Generics<::darling::ast::GenericParam<{}>>", recv(m.field_recv, &format!("{}::TypeParam", syn), &format!("{}::TypeParam", syn))),
+                    "result" => format!("::darling::Result<{}>", base),
+                    "spanned" => format!("::darling::util::SpannedValue<{}>", base),
+                    "with_original" => format!("::darling::util::WithOriginal<{}, {}>", base, base),
+                    _ => base,
+                },
+            )
+        }
+        "attrs" => {
+            if m.wrap == "with" {
+                ("#[darling(with = ::vmodel::val::attrs_with)] ".into(), "::vmodel::val::CountedAttrs".into())
+            } else {
+                (String::new(), format!("Vec<{}::Attribute>", syn))
+            }
+        }
+        "data" => {
+            if m.wrap == "with" {
+                ("#[darling(with = ::vmodel::val::data_with)] ".into(), "::vmodel::val::BodyKind".into())
+            } else {
+                (String::new(), format!("::darling::ast::Data<{}, {}>", recv(m.variant_recv, "()", &format!("{}::Variant", syn)), recv(m.field_recv, "()", &format!("{}::Field", syn))))
+            }
+        }
+        "fields" => (String::new(), format!("::darling::ast::Fields<{}>", recv(m.field_recv, "()", &format!("{}::Field", syn)))),
+        other => panic!("unknown magic field {}", other),
+    }
+}
+
+fn magic_parts(s: &Spec) -> (String, String) {
+    let mut fields = String::new();
+    let mut obs = String::new();
+    for m in &s.magic {
+        let (attr, ty) = magic_ty(s, m);
+        fields.push_str(&format!("    {}pub {}: {},\n", attr, m.name, ty));
+        obs.push_str(&format!("({:?}.to_string(), ::vmodel::val::Observe::observe(&self.{})), ", m.name, m.name));
+    }
+    (fields, obs)
+}
+
 pub fn emit_spec(s: &Spec, extra_container: &str, magic_fields: &str, magic_observe: &str) -> String {
+    let (mf, mo) = magic_parts(s);
+    let magic_fields = &format!("{}{}", magic_fields, mf);
+    let magic_observe = &format!("{}{}", magic_observe, mo);
     let name = s.name();
     let mut out = String::new();
     let c = &s.container;
